@@ -231,7 +231,7 @@ impl Cartesian<'_> {
             .par_iter()
             .find_map_any(|strategy| {
                 match self.probe_strategy(
-                    strategy, &poses, &stop
+                    from, strategy, &poses, &stop
                 ) {
                     Ok(outcome) => {
                         println!("Strategy worked out: {:?}", strategy);
@@ -257,6 +257,7 @@ impl Cartesian<'_> {
     /// Probe the given strategy
     fn probe_strategy(
         &self,
+        start: &Joints,
         work_path_start: &Joints,
         poses: &Vec<AnnotatedPose>,
         stop: &AtomicBool,
@@ -266,7 +267,16 @@ impl Cartesian<'_> {
         crate::verif_hooks::emit("cartesian_strategy_start", work_path_start);
 
         let started = Instant::now();
-        let mut trace = Vec::with_capacity(100 + poses.len() + 10);
+        // Relocate from the given start configuration to the landing solution (collision free,
+        // not Cartesian). The last node is the landing solution itself, it is pushed below.
+        let onboarding = self.rrt.plan_rrt(start, work_path_start, self.robot, stop)?;
+        let mut trace = Vec::with_capacity(onboarding.len() + poses.len() + 10);
+        for joints in onboarding.iter().take(onboarding.len().saturating_sub(1)) {
+            trace.push(AnnotatedJoints {
+                joints: *joints,
+                flags: PathFlags::ONBOARDING,
+            });
+        }
         // Push the strategy point, from here the move must be already CARTESIAN
         trace.push(AnnotatedJoints {
             joints: *work_path_start,
